@@ -129,11 +129,13 @@ class Emitter:
         s.atomic = set(spec.get('atomic', []))
         s.blocking = set(spec.get('blocking', ['pthread_mutex_lock', 'pthread_join', 'futex', 'pthread_cond_wait',
                                                'rt_wait_eq']))
-        s.invisible_prims = set(spec.get('invisible_prims', [])) | {'__errno_location', '__irseq_bad_indirect'}
+        s.invisible_prims = set(spec.get('invisible_prims', [])) | {'__errno_location', '__irseq_bad_indirect', 'abort', '__assert_fail',
+                                                                    'strerror', 'perror', 'pthread_self', 'getpagesize', 'sysconf'}
         s.hint_prims = set(spec.get('hint_prims', ['poll', 'sched_yield', 'usleep']))
         s.warnings = []
         s.stats = {}
-        s.inliner = Inliner(mod, s.is_prim, spec.get('indirect_filter'))
+        s.inliner = Inliner(mod, s.is_prim, spec.get('indirect_filter'), stub_map=spec.get('stub_map'),
+                            indirect_hook=spec.get('indirect_hook'), indirect_only=spec.get('indirect_only'))
         s.used_globals = set()
         s.atomic_needed = set()   # (name, slot)
         s.atomic_done = set()
@@ -447,8 +449,11 @@ class Inst:
         em = s.em; T = em.T; f = s.f
         body = []
         s.body = body
+        s.bindex = {b.label: i for i, b in enumerate(f.blocks)}
+        s.backedges = []
         # declarations
         decls = []
+        locals_ = []
         sto = 'static ' if s.resumable else ''
         for n, t in f.regtypes.items():
             if isinstance(t, VoidT) or t is None:
@@ -471,7 +476,10 @@ class Inst:
             rt = s.mod.resolve(t)
             if isinstance(rt, (StructT, ArrayT)):
                 T.need_complete(t)
-            decls.append('%s%s %s;' % (sto, 'void *' if s.isp(n) else T.ct(t), s.raw(n)))
+            if s.resumable and n not in s.info.persistent:
+                locals_.append('%s %s;' % ('void *' if s.isp(n) else T.ct(t), s.raw(n)))
+            else:
+                decls.append('%s%s %s;' % (sto, 'void *' if s.isp(n) else T.ct(t), s.raw(n)))
         # blocks
         for b in f.blocks:
             body.append('%s: ;' % s.lab(b.label))
@@ -487,6 +495,7 @@ class Inst:
             out += decls + s.extra
             out.append('static uint32_t %s_pc;' % s.prefix)
             out.append('static void %s(void) {' % name)
+            out += ['  ' + l for l in locals_]
             out.append('  switch (%s_pc) {' % s.prefix)
             out.append('  case 0: break;')
             for k in range(1, s.nvis + 1):
@@ -504,7 +513,8 @@ class Inst:
             out += ['  ' + l for l in body]
             out.append('}')
         s.stats = {'function': f.name, 'ir_instructions': sum(len(b.instrs) for b in f.blocks),
-                   'visible_steps': s.nvis, 'mode': s.mode, 'slot': s.slot}
+                   'visible_steps': s.nvis, 'mode': s.mode, 'slot': s.slot, 'loops': ''.join(s.backedges),
+                   'cname': name}
         return '\n'.join(out)
 
     # -------------------------------------------------------------- helpers
@@ -532,8 +542,34 @@ class Inst:
         s.body.append('if (rt_solo && !rt_spun[%d]) { rt_spun[%d] = 1; } else { %s_pc = %d; rt_spun[%d] = 1; return; } V%d: ; /* resume after spin hint */'
                       % (s.slot, s.slot, s.prefix, k, s.slot, k))
 
+    def _loop_class(s, frm, to):
+        """classify the back-edge frm->to: 'w' if the loop body (layout range header..source) contains a busy-wait hint or a
+        blocking primitive (the thread yields inside every iteration), else 'd' (data loop)"""
+        bi = s.bindex
+        lo, hi = bi[to], bi[frm]
+        for b in s.f.blocks[lo:hi + 1]:
+            for ins in b.instrs:
+                if ins.op != 'call':
+                    continue
+                cal = ins.x['callee']
+                if isinstance(cal, InlineAsm):
+                    if cal.tmpl.strip() in ('rep; nop', 'pause'):
+                        return 'w'
+                    continue
+                while isinstance(cal, CExpr) and cal.op == 'bitcast':
+                    cal = cal.args[0]
+                if isinstance(cal, GlobalRef):
+                    n = cal.name
+                    if n in s.em.hint_prims or n in s.em.blocking or n == 'rt_wait_eq':
+                        return 'w'
+                    if n == 'syscall' and ins.args and isinstance(ins.args[0], CInt) and ins.args[0].v == 202:
+                        return 'w'
+        return 'd'
+
     def edge(s, frm, to):
         """phi copies for edge frm->to followed by goto"""
+        if s.bindex[to] <= s.bindex[frm]:
+            s.backedges.append(s._loop_class(frm, to))
         tb = s.f.block(to)
         copies = []
         for ins in tb.instrs:
@@ -844,6 +880,14 @@ class Inst:
             body.append('%s(%s)%s;' % (res, T.ct(ins.ty), callx))
         else:
             body.append('%s;' % callx)
+        if n in ('abort', '__assert_fail'):
+            body.append('RT_ASSUME(0); /* the process is gone */')
+        if n == 'pthread_exit':
+            if s.resumable:
+                body.append('%s_pc = %d; return;' % (s.prefix, DONE_PC))
+            else:
+                body.append('RT_ASSERT(0, "pthread_exit in sequential code"); RT_ASSUME(0);')
+            return
         if s.resumable and (pname in em.blocking or n in em.blocking):
             s.block_check()
         elif (pname in em.blocking or n in em.blocking):
